@@ -7,6 +7,7 @@ import (
 	"github.com/go-git/go-billy/v6"
 
 	"github.com/go-git/go-git/v6/plumbing"
+	"github.com/go-git/go-git/v6/storage"
 	"github.com/go-git/go-git/v6/utils/ioutil"
 )
 
@@ -23,6 +24,18 @@ func (d *DotGit) setRefRwfs(fileName, content string, old *plumbing.Reference) (
 	mode := os.O_RDWR | os.O_CREATE
 	if old == nil {
 		mode |= os.O_TRUNC
+	} else if _, serr := d.fs.Stat(fileName); serr != nil && os.IsNotExist(serr) {
+		// There is no loose file: the value to compare with lives in
+		// packed-refs, or nowhere. Compare before creating a loose file, so
+		// that a refused update does not leave an empty ref file behind
+		// (which every later listing would fail on).
+		ref, perr := d.packedRef(old.Name())
+		if perr != nil {
+			return perr
+		}
+		if ref.Hash() != old.Hash() {
+			return storage.ErrReferenceHasChanged
+		}
 	}
 
 	f, err := d.fs.OpenFile(fileName, mode, 0o666)
